@@ -82,6 +82,12 @@ func c06History(r *h.Rng, p *h.Plan, n int) {
 		case 8:
 			p.Ops = append(p.Ops, h.Op{K: "sleep", N: int64(time.Duration(r.Range(1, 40)) * time.Second)})
 		}
+		// what clients do after an error, and often without one: the very same
+		// request again (in the faulted executions this is the retry of the
+		// operation the fault hit)
+		if last := p.Ops[len(p.Ops)-1]; r.P(1, 5) && last.K != "sleep" && last.K != "clear" && !(last.K == "addfact" && last.Id == "") {
+			p.Ops = append(p.Ops, last)
+		}
 	}
 	var patterns, events []interface{}
 	for i := 0; i < 3 && len(facts) > 0; i++ {
